@@ -55,11 +55,18 @@ inductive Item
 /-- which adapter started the synchronous access that is under way (decides what `syncEnd` updates) -/
 inductive SyncKind
   | plain | itBegin | itInc | itPost (stored : Item)
+  | kept        -- `bool(n)` / `!n` on a kept `auto n = gen.next(a)` object
   deriving DecidableEq, Repr
 
 /-- consumer side: idle, inside a synchronous access, or a consumer coroutine parked in `co_await gen.next()` -/
 inductive Cons
   | idle | inSync (k : SyncKind) | parked
+  deriving DecidableEq, Repr
+
+/-- which external awaiter `next_async` was given: a consumer coroutine in `co_await gen.next(a)`, a callback
+(`gen.next(a).subscribe(&cb)`), or a consumer coroutine in `co_await n` on a kept `auto n = gen.next(a)` object -/
+inductive AwtKind
+  | coro | cb | kept
   deriving DecidableEq, Repr
 
 /-- the future returned by the most recent `gen(a)` -/
@@ -76,6 +83,7 @@ inductive Reader
 inductive Ev
   | got (a : Nat)          -- the body received an argument (result of co_yield)
   | anext (i : Item)       -- the consumer coroutine parked in `co_await gen.next()` continued
+  | kawait (i : Item)      -- the coroutine parked in `co_await n` (kept next() object) continued
   | sub (i : Item)         -- the consumer's callback awaiter (`gen.next(a).subscribe(&cb)`) was called and looked at the result
   | fawait (i : Item)      -- the coroutine parked in `co_await f` continued
   | fhas (b : Bool)        -- the coroutine parked in `co_await f.has_value()` continued
@@ -83,7 +91,7 @@ inductive Ev
   deriving DecidableEq, Repr
 
 inductive Res
-  | unit | gone | blocked | busy | bad | na | noit | nofut
+  | unit | gone | blocked | busy | bad | na | noit | nofut | nokept | stale
   | started                       -- synchronous access started; `syncEnd` finishes it
   | next (b : Bool)               -- result of bool(next()) / `it != end` after begin, ++
   | nomore                        -- no_more_values_exception thrown by the access
@@ -118,7 +126,9 @@ structure State where
   fut      : FutSt
   reader   : Option Reader
   it       : Option Bool   -- generator_iterator::_next of the harness' iterator
-  subMode  : Bool          -- the external awaiter armed by the last `next_async` is a callback (`subscribe`), not a coroutine
+  awtKind  : AwtKind       -- which external awaiter the last `next_async` armed
+  kept     : Option Nat    -- the kept `auto n = gen.next(a)` object (with the argument it was created with), if any
+  kstate   : Bool          -- its `mutable bool _state`: a consultation has answered true
   -- ghost
   script0  : List Act      -- the whole body
   lastArg  : Nat           -- argument of the most recent access
@@ -135,7 +145,7 @@ structure State where
 def init (mode : Bool) (script : List Act) : State :=
   { mode := mode, script := script, bst := .init, live := [], made := 0, resolved := [], alive := true,
     caller := .none, ifn := .null, arg := none, ret := none, exp := false, done := false, block := false,
-    awaiting := false, cons := .idle, fut := .none, reader := none, it := none, subMode := false,
+    awaiting := false, cons := .idle, fut := .none, reader := none, it := none, awtKind := .coro, kept := none, kstate := false,
     script0 := script, lastArg := 0, stuck := false, ub := false, evs := [], seen := [], obs := [], post := [],
     gotLog := [], dtors := [] }
 
@@ -181,7 +191,13 @@ def unblockSync (s : State) : State := { s with block := true }
 called (and looks at `done()` / `value()`, like generator_aggregator's GenCallback consumer does) -/
 def resumeAwt (s : State) : State :=
   { s with cons := .idle, seen := s.seen ++ [cur s], obs := s.obs ++ [cur s],
-           evs := s.evs ++ [if s.subMode then .sub (cur s) else .anext (cur s)] }
+           kstate := (match s.awtKind with
+             | .kept => !s.done          -- next_awt::await_resume: `_state = !done()`
+             | _ => s.kstate),
+           evs := s.evs ++ [match s.awtKind with
+             | .coro => .anext (cur s)
+             | .cb => .sub (cur s)
+             | .kept => .kawait (cur s)] }
 
 def deliver (s : State) : State :=
   match s.caller with
@@ -245,6 +261,7 @@ def endSync (s : State) (kind : SyncKind) (b : Bool) : State × Res :=
   | .itBegin => ({ s with it := some b }, .next b)
   | .itInc => ({ s with it := some b }, .next b)
   | .itPost v => ({ s with it := some b }, .pinc v b)
+  | .kept => ({ s with kstate := b }, .next b)          -- await_resume: `_state = !done()`
 
 /-- `next_awt::operator bool` after `set_arg`: `done()` → false; `next_sync`: `h.done()` → throw; else arm `_internal`,
 `h.resume()` -/
@@ -279,7 +296,7 @@ def anextGo (s : State) : State × Res :=
   if s.done then ({ s with seen := s.seen ++ [.fin], post := s.post ++ [.fin], evs := s.evs ++ [.anext .fin] }, .unit)
   else if s.bst == .final then
     ({ s with caller := .awt, stuck := true, seen := s.seen ++ [.nomore], post := s.post ++ [.nomore], evs := s.evs ++ [.anext .nomore] }, .unit)
-  else (resumeBody { s with caller := .awt, cons := .parked, subMode := false }, .unit)
+  else (resumeBody { s with caller := .awt, cons := .parked, awtKind := .coro }, .unit)
 
 def stepAnext (s : State) (a : Nat) : State × Res :=
   if !s.alive then (s, .gone)
@@ -294,13 +311,57 @@ def subGo (s : State) : State × Res :=
   if s.bst == .final then
     ({ s with caller := .awt, stuck := true, seen := s.seen ++ [.nomore], post := s.post ++ [.nomore],
               evs := s.evs ++ [.sub .nomore] }, .unit)
-  else (resumeBody { s with caller := .awt, cons := .parked, subMode := true }, .unit)
+  else (resumeBody { s with caller := .awt, cons := .parked, awtKind := .cb }, .unit)
 
 def stepSub (s : State) (a : Nat) : State × Res :=
   if !s.alive then (s, .gone)
   else if inSync s then (s, .blocked)
   else if s.caller != .none then (s, .busy)
   else subGo (setArg s a)
+
+/-! A kept `auto n = gen.next(a)` object (`next_awt`): `next(a)` only stores the argument (`set_arg`); the object is consulted later,
+possibly several times. `bool(n)` / `!n` start with `if (_state) return true;` — once a consultation has answered true, further
+truth tests do **not** touch the generator; otherwise they are the synchronous access of `operator bool` (without a new `set_arg`).
+`co_await n` does not look at `_state`: it always is an access, and its `await_resume` stores `_state = !done()`. -/
+
+def stepKeep (s : State) (a : Nat) : State × Res :=
+  if !s.alive then (s, .gone)
+  else if inSync s then (s, .blocked)
+  else if s.caller != .none then (s, .busy)
+  else ({ setArg s a with kept := some a, kstate := false }, .unit)
+
+/-- the argument reference handed to `next(a)` is still the one the body will read: nothing has replaced or consumed it
+(`_arg` is cleared at every `co_yield` and overwritten by every other access) -/
+def keptArgOk (s : State) (a : Nat) : Bool := !s.mode || s.arg == some a
+
+def stepKtest (s : State) : State × Res :=
+  if !s.alive then (s, .gone)
+  else if inSync s then (s, .blocked)
+  else match s.kept with
+    | none => (s, .nokept)
+    | some a =>
+        if s.kstate then (s, .next true)                  -- `if (_state) return true;`
+        else if s.caller != .none then (s, .busy)
+        else if !keptArgOk s a then (s, .stale)
+        else syncGo s .kept
+
+def kawaitGo (s : State) : State × Res :=
+  if s.done then
+    ({ s with kstate := false, seen := s.seen ++ [.fin], post := s.post ++ [.fin], evs := s.evs ++ [.kawait .fin] }, .unit)
+  else if s.bst == .final then
+    ({ s with caller := .awt, stuck := true, seen := s.seen ++ [.nomore], post := s.post ++ [.nomore],
+              evs := s.evs ++ [.kawait .nomore] }, .unit)
+  else (resumeBody { s with caller := .awt, cons := .parked, awtKind := .kept }, .unit)
+
+def stepKawait (s : State) : State × Res :=
+  if !s.alive then (s, .gone)
+  else if inSync s then (s, .blocked)
+  else match s.kept with
+    | none => (s, .nokept)
+    | some a =>
+        if s.caller != .none then (s, .busy)
+        else if !keptArgOk s a then (s, .stale)
+        else kawaitGo s
 
 def futRes (s : State) : State × Res :=
   (s, if s.fut == .pending then .pending else .ready)
@@ -413,6 +474,7 @@ def stepItIsEnd (s : State) : State × Res :=
 
 inductive Op
   | syncBegin (a : Nat) | syncEnd | value | active | anext (a : Nat) | sub (a : Nat) | call (a : Nat)
+  | keep (a : Nat) | ktest | kawait
   | futWait | futGet | futAwait | futHas
   | itBegin | itInc | itDeref | itIsEnd | itPostInc | itDrop
   | complete (k : Nat) | destroy
@@ -425,6 +487,9 @@ def step (s : State) : Op → State × Res
   | .active => stepActive s
   | .anext a => stepAnext s a
   | .sub a => stepSub s a
+  | .keep a => stepKeep s a
+  | .ktest => stepKtest s
+  | .kawait => stepKawait s
   | .call a => stepCall s a
   | .futWait => stepFutWait s
   | .futGet => stepFutGet s
